@@ -12,6 +12,7 @@ PLAN = {
     "c16_lit": ["asan"],
     "seq_eval": ["asan"],
     "c18_json": ["asan", "plain"],
+    "c19_files": ["asan"],
 }
 
 
